@@ -69,6 +69,38 @@ let c07 (rest : string) : string =
        | _ -> failwith "c07: bad header")
   | [] -> failwith "c07: empty"
 
+(* ---------- C08: sender credit ---------- *)
+let c08_flow (f : SenderCredit.lflow option) : string =
+  match f with
+  | None -> "-"
+  | Some f -> Printf.sprintf "[%s %s %s %s %s]" (str_on f.SenderCredit.lf_dc) (str_on f.SenderCredit.lf_credit)
+                (str_on f.SenderCredit.lf_avail) (str_b f.SenderCredit.lf_drain) (str_b f.SenderCredit.lf_echo)
+
+let c08 (rest : string) : string =
+  match split_on rest '|' with
+  | hdr :: evs ->
+      let evs = match evs with [] -> [] | [e] -> split_on e ';' | _ -> failwith "c08: too many |" in
+      let s0 = SenderCredit.linit (n_of_string (String.trim hdr)) in
+      let buf = Buffer.create 256 in
+      let _ = List.fold_left (fun s e ->
+        let ev = match words e with
+          | ["F"; dc; cr; av; drain; echo] ->
+              SenderCredit.LFlow { SenderCredit.lf_dc = opt_n dc; lf_credit = opt_n cr; lf_avail = opt_n av;
+                                   lf_drain = (drain = "1"); lf_echo = (echo = "1") }
+          | ["S"] -> SenderCredit.LSend
+          | _ -> failwith ("c08: bad event " ^ e) in
+        let (s', o) = SenderCredit.lstep s ev in
+        (match o with
+         | SenderCredit.OFlow r -> Buffer.add_string buf ("R " ^ c08_flow r)
+         | SenderCredit.OSent t -> Buffer.add_string buf ("S " ^ str_n t)
+         | SenderCredit.OWait -> Buffer.add_string buf "WAIT");
+        Buffer.add_string buf (Printf.sprintf " # dc=%s credit=%s avail=%s drain=%s ; "
+          (str_n s'.SenderCredit.l_dc) (str_n s'.SenderCredit.l_credit) (str_n s'.SenderCredit.l_avail)
+          (str_b s'.SenderCredit.l_drain));
+        s') s0 evs in
+      Buffer.contents buf
+  | [] -> failwith "c08: empty"
+
 let dispatch (line : string) : string =
   match String.index_opt line ' ' with
   | None -> failwith "no model tag"
@@ -77,6 +109,7 @@ let dispatch (line : string) : string =
       let rest = String.sub line (i + 1) (String.length line - i - 1) in
       (match tag with
        | "c07" -> c07 rest
+       | "c08" -> c08 rest
        | _ -> failwith ("unknown model " ^ tag))
 
 let () =
